@@ -6,7 +6,7 @@ From Coq Require Import ZArith NArith List Bool.
 From Centro Require Import Base.Topo Base.Skel Base.TopoPar Base.TopoSweep Base.TopoGrid Gen.TablesC05.
 From Centro Require Import Model.ThinSkel Spec.TopoCheck Proofs.ThinSkelTopo Proofs.ThinSkelIdem Proofs.TopoCounts
   Proofs.TopoSwShrinkEnd Proofs.ShrinkPoint Proofs.LabelsIndep Proofs.TopoCheckComplete
-  Proofs.EndPixelParity Proofs.EndPixelSep Proofs.EndPixel Proofs.ShrinkPointFull.
+  Proofs.EndPixelParity Proofs.EndPixelSep Proofs.EndPixel Proofs.ShrinkPointFull Proofs.TopoCheckPoints Proofs.RonseLastD.
 Open Scope Z_scope.
 
 (* skeletonize_loop with the current removal table: every image size, every image, every
@@ -155,3 +155,52 @@ Theorem C05_topo_check_complete_partial : RonseLemma ->
   forall H W g g', wf H W g -> wf H W g' -> TopoEq (img_of g) (img_of g') -> topo_check H W g g' = true.
 Proof. exact topo_check_complete_partial. Qed.
 Print Assumptions C05_topo_check_complete_partial.
+
+(* Round 4.  The deletability (Ronse) lemma is PROVED for the targets binary_shrink produces: X' hole-free
+   with single-pixel components (then X is hole-free too).  The deletable pixel is an end pixel of X
+   other than the X'-pixel of its component (C05_end_pixel_fin with that pixel excluded). *)
+Theorem C05_ronse_points : forall H W g g', wf H W g -> wf H W g' ->
+  hole_free (img_of g') -> singletons (img_of g') -> TopoEq (img_of g) (img_of g') ->
+  (exists p, img_of g p = true /\ img_of g' p = false) ->
+  exists p, img_of g p = true /\ img_of g' p = false /\ simple_ok (pat (img_of g) p) = true.
+Proof. exact ronse_points. Qed.
+Print Assumptions C05_ronse_points.
+
+(* Full for this class: the checker accepts every topology-preserving pair whose target is hole-free
+   with single-pixel components (no hypothesis left) *)
+Theorem C05_topo_check_complete_points : forall H W g g', wf H W g -> wf H W g' ->
+  hole_free (img_of g') -> singletons (img_of g') -> TopoEq (img_of g) (img_of g') ->
+  topo_check H W g g' = true.
+Proof. exact topo_check_complete_points. Qed.
+Print Assumptions C05_topo_check_complete_points.
+
+(* binary_shrink(-1) on ANY hole-free image (any number of objects): every object ends as one pixel *)
+Theorem C05_shrink_result_singletons : forall H W g, wf H W g -> hole_free (img_of g) ->
+  singletons (img_of (shrink_model H W (-1) g)).
+Proof. exact shrink_result_singletons. Qed.
+Print Assumptions C05_shrink_result_singletons.
+
+(* completeness of the checker on the model's own output: no false alarm is possible on
+   binary_shrink(-1) of a hole-free image *)
+Theorem C05_topo_check_accepts_shrink : forall H W g, wf H W g -> hole_free (img_of g) ->
+  topo_check H W g (shrink_model H W (-1) g) = true.
+Proof. exact topo_check_accepts_shrink. Qed.
+Print Assumptions C05_topo_check_accepts_shrink.
+
+(* Towards the general RonseLemma (still the one hypothesis of C05_topo_check_complete_partial): the
+   case "the last raster pixel p of X lies in X \ X'".  Either p is simple in X ... *)
+Theorem C05_ronse_last_pixel_simple : forall (X : img) p, X p = true -> (forall q, X q = true -> ~ ltr p q) ->
+  (exists y, adj8 p y /\ X y = true) -> separated X p = false -> simple_ok (pat X p) = true.
+Proof. exact last_pixel_simple. Qed.
+Print Assumptions C05_ronse_last_pixel_simple.
+
+(* ... or p is separated, and then (crossing parity + the background clause of TopoEq) its two sides
+   are not connected without p, and at most one of them contains pixels of X' *)
+Theorem C05_ronse_last_pixel_sides : forall (X X' : img) p u, TopoEq X X' -> X p = true -> X' p = false ->
+  (forall q, X q = true -> ~ ltr p q) -> X (pN p) = false -> X (pNE p) = true ->
+  (u = pW p \/ u = pNW p) -> X u = true ->
+  ~ path adj8 (fun q => fg X q /\ q <> p) u (pNE p) /\
+  (forall a b, X' a = true -> X' b = true ->
+     path adj8 (fun q => fg X q /\ q <> p) u a -> path adj8 (fun q => fg X q /\ q <> p) (pNE p) b -> False).
+Proof. exact last_in_D_sides. Qed.
+Print Assumptions C05_ronse_last_pixel_sides.
